@@ -58,3 +58,17 @@ package fbserver
 //@ pure
 //@ func maxAnswerHandler.Name
 //@ pure
+
+// Server.Start, one listener address (C20/C11): the address gets its OWN maxAnswerHandler, carrying the value
+// configured for that address, in front of the chain shared by all addresses; building one listener never
+// alters that shared chain (otherwise a later address would inherit an earlier address's setting).
+//@ func newDNSSECHandler
+//@ trusted
+//@ pure
+//@ func Server.Start@listener
+//@ region range#0
+//@ flag skip frame,nil,bounds
+//@ requires srv != nil && defaultHandler != nil
+//@ before joinAddress#0 assert[own] maxAnswerHandler != nil && maxAnswerHandler.maxAnswer == maxAns && maxAnswerHandler.Next == old(defaultHandler)
+//@ before joinAddress#0 assert[mux] handler != nil && ((dyntype(handler.defaultHandler) == ptrtag("fbserver.maxAnswerHandler") && asptr(handler.defaultHandler, "fbserver.maxAnswerHandler") == maxAnswerHandler) || !(srv.conf.DNSSECConfig.Zones == "" || srv.conf.DNSSECConfig.Keys == ""))
+//@ ensures[shared] defaultHandler == old(defaultHandler)
